@@ -24,6 +24,7 @@ type histCfg struct {
 	Final     []Op              // appended to every history (not counted in depth)
 	AlphaFn   func(h []Op) []Op // custom alphabet (replaces the generic one)
 	AutoGet   *Op               // issued on every freshly created scope (not counted in depth)
+	Extra     []Op              // further operations offered verbatim in every state (e.g. edits of the collection)
 	Oracle    func(e *Env, s *vsched.Sched, h []Op) []Finding
 }
 
@@ -81,6 +82,7 @@ func (c *histCfg) alphabet(h []Op) []Op {
 			out = append(out, Op{Kind: "cancel", Scope: n})
 		}
 	}
+	out = append(out, c.Extra...)
 	return out
 }
 
@@ -130,6 +132,12 @@ func (c *histCfg) explore(r *mc.Report, prefix []Op) {
 		e, s := c.runOne(hc.History)
 		r.Executions++
 		fmt.Println("outcome:", e.Summary())
+		if e.BuildErr != nil {
+			fmt.Println("   build error:", firstLine(e.BuildErr.Error()))
+		}
+		for _, in := range e.W.Insts {
+			fmt.Printf("   instance %s disposable=%v closes=%d\n", in.Label(), in.Disp, len(in.Closes))
+		}
 		for _, f := range append(genericFindings(e, s), c.Oracle(e, s, hc.History)...) {
 			r.Violate(f.F, f.Detail, hc)
 		}
